@@ -194,10 +194,18 @@ func c19Retrieval(outer interface{}, level int, isList bool) (msg, sig string) {
 	}{{"plain List", at.NewList("pad", outer), at.NewObject("k", outer, "pad", 1)}, {"derived List/Object", newDL("pad", outer), newDO("k", outer, "pad", 1)}}
 	for _, h := range holders {
 		routes := map[string]func() interface{}{
-			"List.Get":          func() interface{} { return h.l.Get(1) },
-			"List.GetTF":        func() interface{} { return h.l.GetTF("#1") },
-			"List.Slice":        func() interface{} { return h.l.Slice()[1] },
-			"List.ForEach":      func() interface{} { var g interface{}; h.l.ForEach(func(i int, v interface{}) { if i == 1 { g = v } }); return g },
+			"List.Get":   func() interface{} { return h.l.Get(1) },
+			"List.GetTF": func() interface{} { return h.l.GetTF("#1") },
+			"List.Slice": func() interface{} { return h.l.Slice()[1] },
+			"List.ForEach": func() interface{} {
+				var g interface{}
+				h.l.ForEach(func(i int, v interface{}) {
+					if i == 1 {
+						g = v
+					}
+				})
+				return g
+			},
 			"List.ForEachValue": func() interface{} { var g interface{}; h.l.ForEachValue(func(v interface{}) { g = v }); return g },
 			"List.Filter":       func() interface{} { return h.l.Filter(func(v interface{}) bool { return v != "pad" }).Get(0) },
 			"List.Map":          func() interface{} { return h.l.Map(func(i int, v interface{}) interface{} { return v }).Get(1) },
@@ -208,7 +216,15 @@ func c19Retrieval(outer interface{}, level int, isList bool) (msg, sig string) {
 			"Object.GetTF":      func() interface{} { return h.o.GetTF(".k") },
 			"Object.Dict":       func() interface{} { return h.o.Dict()["k"] },
 			"Object.Values":     func() interface{} { return h.o.Values().Filter(func(v interface{}) bool { return v != 1 }).Get(0) },
-			"Object.ForEach":    func() interface{} { var g interface{}; h.o.ForEach(func(k string, v interface{}) { if k == "k" { g = v } }); return g },
+			"Object.ForEach": func() interface{} {
+				var g interface{}
+				h.o.ForEach(func(k string, v interface{}) {
+					if k == "k" {
+						g = v
+					}
+				})
+				return g
+			},
 			"Object.ForEachValue": func() interface{} {
 				var g interface{}
 				h.o.ForEachValue(func(v interface{}) {
